@@ -1517,3 +1517,74 @@ def range_count(e: ast.AST) -> Optional[Tuple[str, int]]:
     if lo is None or hi is None or lo[0] != "":
         return None
     return (hi[0], hi[1] - lo[1])
+
+
+def flat_concat(fn: ast.AST) -> Optional[Tuple[str, ast.AST, str]]:
+    """(source, per-item expression, item variable) when fn returns, in order and complete, the concatenation of <expr(item)> for item in <source>:
+       list(chain(*[E for x in S])) / chain.from_iterable(E for x in S) / [y for x in S for y in E] / sum((E for x in S), []) /
+       acc = []; for x in S: acc.extend(E) (or acc += E); return acc.      None for anything else (conditions, sorting, sets, slices...)."""
+    rets = [r for r in walk_no_nested(fn) if isinstance(r, ast.Return) and r.value is not None]
+    if len(rets) != 1:
+        return None
+    v = rets[0].value
+
+    def comp(c):
+        if isinstance(c, (ast.ListComp, ast.GeneratorExp)) and len(c.generators) == 1 and not c.generators[0].ifs and isinstance(c.generators[0].target, ast.Name):
+            return src(c.generators[0].iter), c.elt, c.generators[0].target.id
+        return None
+    e = v
+    if isinstance(e, ast.Call) and isinstance(e.func, ast.Name) and e.func.id == "list" and len(e.args) == 1 and not e.keywords:
+        e = e.args[0]
+    if isinstance(e, ast.Call) and call_name(e) == "chain" and len(e.args) == 1 and isinstance(e.args[0], ast.Starred) and not e.keywords:
+        return comp(e.args[0].value)
+    if isinstance(e, ast.Call) and call_name(e) == "from_iterable" and len(e.args) == 1 and not e.keywords:
+        return comp(e.args[0])
+    if isinstance(e, ast.Call) and isinstance(e.func, ast.Name) and e.func.id == "sum" and len(e.args) == 2 and src(e.args[1]) in ("[]", "list()"):
+        return comp(e.args[0])
+    if isinstance(v, ast.ListComp) and len(v.generators) == 2 and not v.generators[0].ifs and not v.generators[1].ifs \
+            and isinstance(v.generators[0].target, ast.Name) and src(v.elt) == src(v.generators[1].target):
+        return src(v.generators[0].iter), v.generators[1].iter, v.generators[0].target.id
+    if isinstance(v, ast.Name):
+        acc = v.id
+        body = [s for s in fn.body if not (isinstance(s, ast.Expr) and isinstance(s.value, ast.Constant))]
+        if len(body) == 3 and isinstance(body[0], ast.Assign) and src(body[0].targets[0]) == acc and src(body[0].value) in ("[]", "list()") \
+                and isinstance(body[1], ast.For) and not body[1].orelse and isinstance(body[1].target, ast.Name) and len(body[1].body) == 1 and body[2] is rets[0]:
+            st = body[1].body[0]
+            if isinstance(st, ast.Expr) and isinstance(st.value, ast.Call) and call_name(st.value) == "extend" and src(st.value.func.value) == acc and len(st.value.args) == 1:
+                return src(body[1].iter), st.value.args[0], body[1].target.id
+            if isinstance(st, ast.AugAssign) and isinstance(st.op, ast.Add) and src(st.target) == acc:
+                return src(body[1].iter), st.value, body[1].target.id
+    return None
+
+
+def selected_by_type(fn: ast.AST, target_src: str, class_name: str) -> Optional[str]:
+    """the source list when <target> ends up holding exactly the items of a list that are instances of <class_name>, in order:
+         target = [x for x in S if isinstance(x, C)]
+         tmp = []; for x in S: if isinstance(x, C): tmp.append(x) (other statements for other kinds may share the loop); target = tmp
+       returns src(S), or None"""
+    from sa.core.paths import guards, parent_map, enclosing
+    pm = parent_map(fn)
+    assigned = [st for st in walk_no_nested(fn) if isinstance(st, ast.Assign) and len(st.targets) == 1 and src(st.targets[0]) == target_src]
+    if len(assigned) != 1:
+        return None
+    v = assigned[0].value
+    if isinstance(v, ast.ListComp) and len(v.generators) == 1 and isinstance(v.generators[0].target, ast.Name) and src(v.elt) == v.generators[0].target.id \
+            and len(v.generators[0].ifs) == 1:
+        t = v.generators[0].ifs[0]
+        if isinstance(t, ast.Call) and call_name(t) == "isinstance" and src(t.args[0]) == v.generators[0].target.id and src(t.args[1]).split(".")[-1] == class_name:
+            return src(v.generators[0].iter)
+        return None
+    if isinstance(v, ast.Name):
+        tmp = v.id
+        inits = [st for st in walk_no_nested(fn) if isinstance(st, ast.Assign) and len(st.targets) == 1 and src(st.targets[0]) == tmp]
+        apps = [c for c in walk_no_nested(fn) if isinstance(c, ast.Call) and call_name(c) in ("append", "extend", "insert", "remove", "pop", "clear", "sort", "reverse")
+                and src(c.func.value) == tmp]
+        if len(inits) == 1 and src(inits[0].value) in ("[]", "list()") and len(apps) == 1 and call_name(apps[0]) == "append" and ordk(inits[0]) < ordk(apps[0]) < ordk(assigned[0]):
+            lps = enclosing(fn, apps[0], (ast.For,), pm)
+            if len(lps) == 1 and isinstance(lps[0].target, ast.Name) and src(apps[0].args[0]) == lps[0].target.id \
+                    and not any(isinstance(x, (ast.Break, ast.Continue)) for x in ast.walk(lps[0])):
+                gs = {(src(t), tr) for t, tr in guards(lps[0], apps[0], pm)}
+                want = [g for g in gs if g[1] and re.fullmatch(rf"isinstance\({lps[0].target.id}, (\w+\.)*{class_name}\)", g[0])]
+                if want and len(gs) == 1:
+                    return src(lps[0].iter)
+    return None
